@@ -1,6 +1,9 @@
 //! Property table: which scenarios, bounds and oracles decide each property.
 use crate::hubcore::*;
+use crate::unbondlc::UnbondLc;
 use crate::runner::*;
+use crate::chain::*;
+use crate::deploy::*;
 
 fn envelope() -> Vec<String> {
     vec![
@@ -8,6 +11,12 @@ fn envelope() -> Vec<String> {
         "chain model of DESIGN.md section 3.1 is the trusted base (bank, staking, distribution, wasm dispatch); gas, share truncation and entry caps are not modelled".into(),
         "amounts are explored at lattice points and state-relative fractions, not for every integer".into(),
     ]
+}
+
+fn ulc(label: &str, f: impl FnOnce(&mut UnbondLc)) -> UnbondLc {
+    let mut h = UnbondLc::base(label);
+    f(&mut h);
+    h
 }
 
 fn hub(label: &str, f: impl FnOnce(&mut HubCore)) -> HubCore {
@@ -54,12 +63,48 @@ pub fn build(id: &str, tier: Tier) -> Option<Check> {
             id: "C06",
             jobs: vec![
                 bfs(hub("c06-main", |h| { h.arm.c06 = true; h.budget = tier.pick(2, 3); h.slash_fracs = if q { vec![(1, 10)] } else { vec![(1, 10), (1, 2), (1, 10000)] }; h.seeds = if q { vec!["funded", "slashed_unseen"] } else { vec!["funded", "slashed_unseen", "inflight", "three_vals"] }; h.with_withdraw = false; }), tier.pick(4, 6), secs),
+                bfs(ulc("c06-release", |h| { h.arm.c06 = true; h.budget = tier.pick(2, 3); h.slash_vals = vec!["val1", "val2"]; h.sym = false; h.amounts_abs = vec![100, 37]; h.seeds = vec!["funded", "two_inflight"]; }), tier.pick(5, 7), secs),
                 bfs(hub("c06-onepool", |h| { h.arm.c06 = true; h.budget = 2; h.seeds = vec!["fresh"]; h.with_withdraw = false; h.with_convert = false; h.bond_amounts = vec![1000, 3]; h.slash_fracs = vec![(1, 10), (1, 2)]; }), tier.pick(4, 5), secs),
             ],
             rule: "hub-core exploration with a slashing budget F; in every distinct state the recognition function (State query) is compared with the exact pro-rata split of the surviving delegation; every pricing transaction must store exactly recognised pools + its own delta; non-trivial = state or transition with an unrecognised slash, or a pricing op".into(),
             assumptions: envelope(),
-            essential: vec!["c06_unrecognised_slash_state", "c06_recognising_op", "c06_op_without_slash"],
+            essential: vec!["c06_unrecognised_slash_state", "c06_recognising_op", "c06_op_without_slash", "c06_release_group_checked", "c06_release_group_with_loss_or_surplus"],
         },
+        "C01" => Check {
+            id: "C01",
+            jobs: vec![
+                bfs(ulc("c01-lifecycle", |h| { h.arm.c01 = true; h.with_bond = !q; h.with_convert = !q; h.with_slash_bonded = true; h.budget = tier.pick(1, 2); h.slash_vals = vec!["val1", "val2"]; h.seeds = vec!["funded", "slashed", "inflight", "two_inflight"]; if !q { h.users = vec![ALICE, BOB, CAROL]; h.seeds.push("three_users"); } }), tier.pick(5, 7), secs),
+                bfs(ulc("c01-pegfee", |h| { h.arm.c01 = true; h.peg_fee = "0.01"; h.seeds = vec!["slashed"]; h.budget = 1; }), tier.pick(5, 7), secs),
+                bfs(ulc("c01-dust-stsei", |h| { h.arm.c01 = true; h.users = vec![ALICE, BOB, CAROL]; h.tokens = vec![STSEI]; h.sym = false; h.amounts_abs = vec![1, 100]; h.seeds = if q { vec!["dustgroup"] } else { vec!["dust", "dustgroup"] }; h.with_rogue = false; h.budget = 1; }), tier.pick(6, 10), secs),
+                bfs(ulc("c01-dust-bsei", |h| { h.arm.c01 = true; h.users = vec![ALICE, BOB, CAROL]; h.tokens = vec![BSEI]; h.sym = false; h.amounts_abs = vec![1, 100]; h.seeds = vec!["dustgroup_b"]; h.with_rogue = false; h.budget = 1; }), tier.pick(6, 8), secs),
+            ],
+            rule: "every sequence of <= D unbond/withdraw/time-jump actions (plus bond/convert in the thorough tier) with <= F slashing-of-unbonding / bonded-slash / rogue-transfer deviations, for 2-3 users and both tokens; a narrow one-token 'dust group' scenario (amounts 1 and 100 at rate 0.9) goes deeper to put several batches, including zero-valued ones, into one release group; in every distinct state all users with matured claims withdraw on clones in every order; non-trivial = a release, a paid withdraw, or a probe state with matured claims".into(),
+            assumptions: envelope(),
+            essential: vec!["c01_release_checked", "c01_withdraw_paid", "c01_probe_states_with_matured_claims", "c01_probe_multi_user_orders", "c01_release_multi_batch", "c01_release_with_zero_valued_batch", "c01_release_after_slash_or_rogue"],
+        },
+        "C07" => Check {
+            id: "C07",
+            jobs: vec![
+                bfs(ulc("c07-ledger", |h| { h.arm.c07 = true; h.with_send_from = true; h.with_foreign_receive = true; h.seeds = vec!["allowances"]; h.budget = 0; h.users = if q { vec![ALICE, BOB] } else { vec![ALICE, BOB, CAROL] }; }), tier.pick(5, 7), secs),
+                bfs(ulc("c07-pegfee", |h| { h.arm.c07 = true; h.peg_fee = "0.01"; h.seeds = vec!["slashed"]; h.budget = 0; h.with_bond = true; }), tier.pick(4, 6), secs),
+            ],
+            rule: "every sequence of <= D unbonds (Send and allowance-based SendFrom, both tokens, 3 amounts each), withdraws, forged Receive hooks and time jumps for 2-3 users plus a spender; a reference claim ledger carried in the state is compared with UnbondRequests of every known address, CurrentBatch totals, AllHistory totals and every AllHistory page in every distinct state; non-trivial = an accepted unbond or a state with closed batches".into(),
+            assumptions: envelope(),
+            essential: vec!["c07_unbond_checked", "c07_unbond_via_send_from", "c07_history_batches_checked", "c07_forged_receive", "c07_history_pages"],
+        },
+        "C08" => {
+            let periods: Vec<(u64, u64)> = if q { vec![(10, 30), (3, 3), (0, 1)] } else { vec![(10, 30), (3, 3), (1, 2), (30, 10), (0, 1)] };
+            Check {
+                id: "C08",
+                jobs: periods
+                    .into_iter()
+                    .map(|(e, u)| bfs(ulc(&format!("c08-E{}-U{}", e, u), |h| { h.arm.c08 = true; h.epoch = e; h.unbonding = u; h.full_time = true; h.sym = false; h.amounts_abs = vec![1, 100]; h.seeds = vec!["funded"]; h.budget = 0; }), tier.pick(5, 7), secs / 3.0))
+                    .collect(),
+                rule: "for each (epoch, unbonding) period configuration every sequence of <= D unbond(1|100)/withdraw actions of 2 users interleaved with the full time-region alphabet (+1 second and every critical instant c-1, c, c+1 of the epoch boundary and of every pending release); every transition compares the history before/after and checks the epoch and unbonding comparisons at the exact boundary seconds; non-trivial = batch close, release transition, in-epoch unbond or a paid withdraw".into(),
+                assumptions: envelope(),
+                essential: vec!["c08_batch_close_checked", "c08_release_transition", "c08_unbond_within_epoch", "c08_withdraw_timelock_checked", "c08_released_entry_compared"],
+            }
+        }
         "C13" => Check {
             id: "C13",
             jobs: vec![
